@@ -271,9 +271,10 @@ fn class_merger_merge(client: ClassFile, server: ClassFile) -> Result<ClassFile>
 
 		nest_host_class: client.nest_host_class,
 		nest_members: client.nest_members,
-		permitted_subclasses: None, // TODO: deal with this here
+		// TODO: merge these properly, for now taken from the client like the attributes around them
+		permitted_subclasses: client.permitted_subclasses,
 
-		record_components: vec![], // TODO: deal with this here
+		record_components: client.record_components,
 
 		attributes: client.attributes,
 	})
